@@ -35,6 +35,20 @@ def config_big():
     )
 
 
+def config_large():
+    """one or two surfaces with 500-800 panels in total (size-dependent code paths: solver switches, chunking ...)"""
+    @st.composite
+    def _c(draw):
+        md = draw(S.mesh(kinds=("left", "full", "right"), nx=(4, 7), nyh=(3, 4), noise=False, winglet=False))
+        panels = draw(st.integers(505, 760))
+        halves = 2 if md["kind"] == "full" else 1
+        md["nyh"] = int(np.ceil(panels / ((md["nx"] - 1) * halves))) + 1
+        md["side"]["b"] = max(md["side"]["b"], 8.0)
+        return dict(surfaces=[{"mesh": md}], flow=draw(S.flow(beta=md["kind"] == "full", rot=True)))
+
+    return _c()
+
+
 def verdict(desc):
     from oasv import ref_vlm
 
@@ -164,5 +178,6 @@ def selftest_verdict(d):
 SUBS = [
     Sub("vlm_vs_reference", config(), verdict, quick=960, thorough=12000),
     Sub("vlm_vs_reference_fine", config_big(), verdict, quick=128, thorough=3000),
+    Sub("vlm_vs_reference_large", config_large(), verdict, quick=9, thorough=80, max_shards=3),
     Sub("reference_selftest", selftest_cfg(), selftest_verdict, quick=160, thorough=2000),
 ]
